@@ -5,7 +5,8 @@ from verifkit import gen, wiregen as W
 ID = "C11"
 THM_MODULES = ["Minicbor.Thm.C11"]
 P = "Minicbor.C11."
-REQUIRED = [P + n for n in """token_roundtrip_examples""".split()]
+REQUIRED = [P + n for n in """token_progress tokenizer_bounded tokenizer_bounded' tokenize_item tokenize_encW
+    tokens_canonicalise tokens_of_preferred""".split()]
 PACKAGES = ["hcore"]
 RULE = ("tokdec <hex> / tokenc <tokens>: (a) well-formed item sequences from wire trees (preferred and non-preferred heads, indefinite containers, chunked strings): "
         "the token list must carry the data-model value of every head (oracle from the tree) and re-encoding the implementation's own tokens must give the preferred "
